@@ -1,6 +1,8 @@
 import NdnModel.CodecWF
+import NdnModel.ClassMerge
 /- GENERATED on every run by harness/props/c08.py from the live `_encoded_fields` of the model classes
-   shipped with python-ndn.  Do not edit. -/
+   shipped with python-ndn, and (merge_*) from the class namespaces and base classes of the shipped classes that
+   use inheritance / IncludeBase.  Do not edit. -/
 namespace Ndn.Gen.C08
 open Ndn.Codec
 
@@ -56,5 +58,34 @@ def shipped : List (List Schema) := [ndn_format_0_3_KeyLocator, ndn_format_0_3_S
 
 /-- every shipped model class satisfies the hypothesis of the C08 theorems -/
 theorem shipped_wf : shipped.all wfTop = true := by decide
+
+def merge_security_v2_CertificateV2SignatureInfo_bases : List (BaseCls (List Char) Schema) := [(some [("signature_type".toList, (.uint 27 (some 1))), ("key_locator".toList, (.model 28 [(.name 7), (.bytes 29 false)] false)), ("signature_nonce".toList, (.uint 38 none)), ("signature_time".toList, (.uint 40 none)), ("signature_seq_num".toList, (.uint 42 none))]),
+    (some [("additional_description".toList, (.model 258 [(.repeated (.model 512 [(.bytes 513 false), (.bytes 514 false)] false))] false))])]
+def merge_security_v2_CertificateV2SignatureInfo_body : List (List Char × Decl Schema) := [("__module__".toList, .other),
+    ("signature_info".toList, .includeBase 0),
+    ("validity_period".toList, .field (.model 253 [(.bytes 254 false), (.bytes 255 false)] false)),
+    ("certificate_v2_extension".toList, .includeBase 1),
+    ("__doc__".toList, .other),
+    ("__abstractmethods__".toList, .other),
+    ("_abc_impl".toList, .other),
+    ("_encoded_fields".toList, .other)]
+def merge_security_v2_CertificateV2SignatureInfo_fields : List (List Char × Schema) := [("signature_type".toList, (.uint 27 (some 1))), ("key_locator".toList, (.model 28 [(.name 7), (.bytes 29 false)] false)), ("signature_nonce".toList, (.uint 38 none)), ("signature_time".toList, (.uint 40 none)), ("signature_seq_num".toList, (.uint 42 none)), ("validity_period".toList, (.model 253 [(.bytes 254 false), (.bytes 255 false)] false)), ("additional_description".toList, (.model 258 [(.repeated (.model 512 [(.bytes 513 false), (.bytes 514 false)] false))] false))]
+
+def merge_security_v2_CertificateV2Value_bases : List (BaseCls (List Char) Schema) := [(some [("_signer".toList, .marker), ("_sig_cover_part".toList, .marker), ("_sig_value_buf".toList, .marker), ("_shrink_len".toList, .marker), ("_sig_cover_start".toList, .marker), ("name".toList, (.name 7)), ("meta_info".toList, (.model 20 [(.uint 24 none), (.uint 25 none), (.bytes 26 false)] false)), ("content".toList, (.bytes 21 false)), ("signature_info".toList, (.model 22 [(.uint 27 (some 1)), (.model 28 [(.name 7), (.bytes 29 false)] false), (.uint 38 none), (.uint 40 none), (.uint 42 none)] true)), ("signature_value".toList, (.bytes 23 false))])]
+def merge_security_v2_CertificateV2Value_body : List (List Char × Decl Schema) := [("__module__".toList, .other),
+    ("_base".toList, .includeBase 0),
+    ("signature_info".toList, .field (.model 22 [(.uint 27 (some 1)), (.model 28 [(.name 7), (.bytes 29 false)] false), (.uint 38 none), (.uint 40 none), (.uint 42 none), (.model 253 [(.bytes 254 false), (.bytes 255 false)] false), (.model 258 [(.repeated (.model 512 [(.bytes 513 false), (.bytes 514 false)] false))] false)] true)),
+    ("__doc__".toList, .other),
+    ("__abstractmethods__".toList, .other),
+    ("_abc_impl".toList, .other),
+    ("_encoded_fields".toList, .other)]
+def merge_security_v2_CertificateV2Value_fields : List (List Char × Schema) := [("_signer".toList, .marker), ("_sig_cover_part".toList, .marker), ("_sig_value_buf".toList, .marker), ("_shrink_len".toList, .marker), ("_sig_cover_start".toList, .marker), ("name".toList, (.name 7)), ("meta_info".toList, (.model 20 [(.uint 24 none), (.uint 25 none), (.bytes 26 false)] false)), ("content".toList, (.bytes 21 false)), ("signature_info".toList, (.model 22 [(.uint 27 (some 1)), (.model 28 [(.name 7), (.bytes 29 false)] false), (.uint 38 none), (.uint 40 none), (.uint 42 none), (.model 253 [(.bytes 254 false), (.bytes 255 false)] false), (.model 258 [(.repeated (.model 512 [(.bytes 513 false), (.bytes 514 false)] false))] false)] true)), ("signature_value".toList, (.bytes 23 false))]
+
+/-- for every shipped class with a base class or an IncludeBase attribute the model of the metaclass yields, from
+    the class namespace and the field lists of its bases, the `_encoded_fields` (names, fields, order) the library has -/
+theorem shipped_merge_ok :
+    (mergeFields merge_security_v2_CertificateV2SignatureInfo_bases merge_security_v2_CertificateV2SignatureInfo_body = .ok merge_security_v2_CertificateV2SignatureInfo_fields) ∧
+    (mergeFields merge_security_v2_CertificateV2Value_bases merge_security_v2_CertificateV2Value_body = .ok merge_security_v2_CertificateV2Value_fields) :=
+  ⟨by rfl, by rfl⟩
 
 end Ndn.Gen.C08
